@@ -26,7 +26,7 @@ PROP = "C13"
 LEVEL = "exploration"
 RULE = ("Generated projects of 1-4 recipes (DAG; per-dependency environment/use/forward/inherit/checkoutDep, "
         "packageDepends, provideVars, provideTools with path/libs/environment, provideDeps, optional checkout step, "
-        "fingerprintScript+fingerprintVars) whose checkout/build/package/fingerprint scripts dump exported variables, "
+        "an optional inherited class with environment/privateEnvironment/Vars, fingerprintScript+fingerprintVars) whose checkout/build/package/fingerprint scripts dump exported variables, "
         "positional arguments and argument ids with bash builtins. Variable values over a nasty alphabet (quotes, $, "
         "backslash, backtick, newline, tab, \\x01, \\x7f, glob/history characters, blanks, non-ASCII incl. astral and "
         "combining) are defined at every site (-D raw, default.yaml, environment, privateEnvironment, metaEnvironment, "
@@ -90,7 +90,8 @@ littree_st = st.one_of(lit_st, st.lists(lit_st, min_size=1, max_size=2).map(lamb
 def vardict_st(tree, names=name_st, max_size=3):
     return st.lists(st.tuples(names, tree).map(list), max_size=max_size, unique_by=lambda t: t[0])
 
-varlist_st = st.lists(name_st, max_size=3, unique=True)
+USE_POOL = POOL + ["BOB_RECIPE_NAME", "BOB_PACKAGE_NAME", "BOB_HOST_PLATFORM"]      # "populated internally by Bob"
+varlist_st = st.lists(st.sampled_from(USE_POOL), max_size=3, unique=True)
 KINDS = ("checkout", "build", "package")
 
 def steps_st(elem):
@@ -135,7 +136,15 @@ def recipe_st(i, n):
         "provide_deps": st.sampled_from([False, False, True]),
         "fingerprint": st.one_of(st.none(), st.none(), varlist_st),
         "provide_sandbox": st.booleans(),
+        "inherit": st.sampled_from([False, False, True]),
     })
+
+class_st = st.fixed_dictionaries({
+    "env": vardict_st(tree_st, max_size=2),
+    "private": vardict_st(tree_st, max_size=2),
+    "vars": steps_st(st.lists(st.sampled_from(USE_POOL), max_size=2, unique=True)),
+    "weak": steps_st(st.one_of(st.just([]), st.lists(name_st, max_size=1))),
+})
 
 @st.composite
 def raw_case_st(draw, quick=True):
@@ -147,6 +156,8 @@ def raw_case_st(draw, quick=True):
     sandbox = draw(st.sampled_from(["no"] * 7 + ["slim", "dev", "strict", "yes", "slim", "dev"]))
     return {
         "recipes": recipes,
+        "cls": draw(class_st),
+        "no_audit": draw(st.booleans()),
         "default_env": draw(vardict_st(tree_st)),
         "defines": draw(st.lists(st.tuples(name_st, value_st).map(list), max_size=2, unique_by=lambda t: t[0])),
         "host": host,
@@ -172,6 +183,7 @@ def normalize(case):
     if not case["image"] or n < 2:
         case["image"] = False
     case["default_env"] = strip_dict(case["default_env"])
+    case["cls"] = dict(case["cls"], env=strip_dict(case["cls"]["env"]), private=strip_dict(case["cls"]["private"]))
     for i, r in enumerate(rs):
         for f in ("env", "private", "meta", "provide_vars"):
             r[f] = strip_dict(r[f])
@@ -331,7 +343,13 @@ class Model:
         env = dict(in_env)
         # 1. "Any variable defined in environment is set to the given value."  (values never refer to a name that is
         #    defined in the same dictionary - see strip_refs - so the order inside the dictionary does not matter)
-        env.update({k: ev(t, in_env) for k, t in r["env"]})
+        #    "Declarations of classes are substituted in their inheritance order ... The definitions of the recipe has
+        #    the highest precedence (i.e. it is substituted last)."
+        cls = self.case["cls"] if r["inherit"] else None
+        if cls is not None:
+            env.update({k: ev(t, in_env) for k, t in cls["env"]})
+        base = dict(env)
+        env.update({k: ev(t, base) for k, t in r["env"]})
         # 2. forwarded environment / tools / sandbox
         fwd_env, fwd_tools, fwd_sandbox = dict(env), dict(in_tools), in_sandbox
         tools = dict(in_tools)
@@ -399,8 +417,13 @@ class Model:
         for t in me.tools["package"]:
             env.update(t.env)
         # "Finally, variables defined in privateEnvironment and metaEnvironment are merged too."
-        env.update({k: ev(t, env) for k, t in r["private"]})
-        env.update({k: ev(t, env) for k, t in r["meta"]})
+        if cls is not None:
+            base = dict(env)
+            env.update({k: ev(t, base) for k, t in cls["private"]})
+        base = dict(env)
+        env.update({k: ev(t, base) for k, t in r["private"]})
+        base = dict(env)
+        env.update({k: ev(t, base) for k, t in r["meta"]})
         env["BOB_RECIPE_NAME"] = rname(ri)
         env["BOB_PACKAGE_NAME"] = rname(ri)
         me.env = env
@@ -410,6 +433,8 @@ class Model:
         s_acc, w_acc = set(), set()
         for k in KINDS:
             s_acc |= set(r["vars"][k]); w_acc |= set(r["weak"][k])
+            if cls is not None:
+                s_acc |= set(cls["vars"][k]); w_acc |= set(cls["weak"][k])
             me.decl[k] = set(s_acc)
             me.strong[k] = {n: env[n] for n in s_acc if n in env}
             me.weak[k] = {n: env.get(n) for n in (w_acc - s_acc)}
@@ -536,6 +561,16 @@ def render(case, root, sandboxed):
         dflt["whitelistRemove"] = list(case["whitelist_remove"])
     with open(os.path.join(root, "default.yaml"), "w") as f:
         f.write(_dump_yaml(dflt) if dflt else "{}\n")
+    cls = case["cls"]
+    cdoc = {}
+    if cls["env"]: cdoc["environment"] = {k: L.render(t) for k, t in cls["env"]}
+    if cls["private"]: cdoc["privateEnvironment"] = {k: L.render(t) for k, t in cls["private"]}
+    for k in KINDS:
+        if cls["vars"][k]: cdoc[k + "Vars"] = list(cls["vars"][k])
+        if cls["weak"][k]: cdoc[k + "VarsWeak"] = list(cls["weak"][k])
+    os.makedirs(os.path.join(root, "classes"), exist_ok=True)
+    with open(os.path.join(root, "classes", "cls.yaml"), "w") as f:
+        f.write(_dump_yaml(cdoc) if cdoc else "{}\n")
     probes = probe_paths(case, root) if (sandboxed and case["sandbox"] != "no") else None
     tmp_probe = sandboxed and case["sandbox"] in ("slim", "dev", "strict")
     n = len(case["recipes"])
@@ -544,6 +579,8 @@ def render(case, root, sandboxed):
         doc = {}
         if i == 0:
             doc["root"] = True
+        if r["inherit"]:
+            doc["inherit"] = ["cls"]
         for key, field in (("environment", "env"), ("privateEnvironment", "private"), ("metaEnvironment", "meta"),
                            ("provideVars", "provide_vars")):
             if r[field]:
@@ -603,6 +640,8 @@ def argv_of(case, sandboxed):
         argv += ["-e", n]
     if case["preserve"]:
         argv.append("-E")
+    if case["no_audit"]:
+        argv.append("--no-audit")
     sb = case["sandbox"] if sandboxed else "no"
     argv.append({"no": "--no-sandbox", "yes": "--sandbox", "slim": "--slim-sandbox", "dev": "--dev-sandbox",
                  "strict": "--strict-sandbox"}[sb])
@@ -775,7 +814,7 @@ class Oracle:
         """weak variables do not separate variants: any instance of the recipe may have been the one that was built"""
         cands = self.m.weak_candidates(inst.ri, kind, n)
         if got is None:
-            return None in cands or all(c is None for c in cands)
+            return None in cands
         return any(c is not None and got == b(c) for c in cands)
 
     def check_env(self, inst, kind, d, where):
@@ -798,9 +837,9 @@ class Oracle:
                 v = strong[n]
                 if got is None:
                     self.fail("declared-variable-missing", "%s: %s is declared and set to %s but not visible" % (where, n, short(v)))
-                if got != b(v):
+                elif got != b(v):
                     self.fail("value-differs", "%s: %s should be %s but the script sees %s" % (where, n, short(b(v)), short(got)))
-                if interesting(v):
+                elif interesting(v):
                     self.delivered_interesting = True
             elif n in decl:
                 # declared, but the package environment has no such variable ("It is not an error if a variable
@@ -809,19 +848,19 @@ class Oracle:
                     self.fail("host-variable-leak" if n in self.host else "unknown-variable-visible",
                               "%s: %s is declared but unset in the package environment, yet the script sees %s "
                               "(host: %s, whitelist %s)" % (where, n, short(got), short(self.host.get(n)), sorted(self.wl)))
-                if got is None and hostv is not None:
+                elif got is None and hostv is not None:
                     self.fail("whitelisted-variable-missing", "%s: host variable %s is whitelisted but not visible" % (where, n))
             else:
-                if got is not None and hostv is not None and got == b(hostv) and \
-                        (None in self.m.weak_candidates(inst.ri, kind, n)):
-                    continue
-                if not self.weak_ok(inst, kind, n, got, where) and not (got is None and hostv is None and False):
-                    if got is None and hostv is not None:
-                        self.fail("whitelisted-variable-missing", "%s: host variable %s is whitelisted but not visible" % (where, n))
+                cands = self.m.weak_candidates(inst.ri, kind, n)
+                if got is None and hostv is not None:
+                    self.fail("whitelisted-variable-missing", "%s: host variable %s is whitelisted but not visible" % (where, n))
+                elif got is not None and hostv is not None and got == b(hostv) and None in cands:
+                    pass            # unset in (one instance of) the package: the whitelisted host variable shows through
+                elif not self.weak_ok(inst, kind, n, got, where):
                     self.fail("value-differs" if got is not None else "declared-variable-missing",
                               "%s: weak variable %s should be one of %s but the script sees %s" %
-                              (where, n, short(sorted(map(repr, self.m.weak_candidates(inst.ri, kind, n)))), short(got)))
-                if got is not None and interesting(got.decode("utf-8", "replace")):
+                              (where, n, short(sorted(map(repr, cands))), short(got)))
+                elif got is not None and interesting(got.decode("utf-8", "replace")):
                     self.delivered_interesting = True
         for n in sorted(d.env):
             if n in declared or n in own:
@@ -932,7 +971,6 @@ class Oracle:
             return
         self.labels.add("step-isolated")
         # what may be visible: own workspace, arguments, tools, sandbox image, earlier steps of the package
-        allowed = {d.workspace}
         for apath, aid, awr in d.args:
             if awr:
                 self.fail("sandbox-argument-writable", "%s: the script could create a file in its argument %s" % (where, apath))
@@ -1036,7 +1074,7 @@ def userns_ok():
         helper = os.path.join(vlib.REPO, "bin", "bob-namespace-sandbox")
         try:
             if not os.path.exists(helper):
-                sys.path  # the helper is compiled by Bob on first use (bob.develop.make); ask Bob for it
+                # the helper is compiled by Bob on first use (bob.develop.make): ask Bob for it
                 from bob.invoker import getSandboxHelperPath
                 helper = getSandboxHelperPath()
             _userns = subprocess.run([helper, "-C"], stdout=subprocess.DEVNULL, stderr=subprocess.DEVNULL).returncode == 0
@@ -1088,6 +1126,7 @@ def run_case(ctx, case, confirm=False):
             if any(d["env"] for d in rr["deps"]): labels.append("site:dependency-environment")
             if any(t["env"] for t in rr["provide_tools"]): labels.append("site:tool-environment")
             if any(rr["weak"][k] for k in KINDS): labels.append("weak-vars")
+            if rr["inherit"]: labels.append("class")
             if rr["fingerprint"] is not None: labels.append("fingerprintScript")
             if any(not d["inherit"] for d in rr["deps"]): labels.append("inherit:false")
             if any(d["forward"] for d in rr["deps"]): labels.append("forward")
